@@ -4,7 +4,7 @@ sys.path.insert(0, os.path.dirname(os.path.abspath(__file__)))
 import propcfg
 
 HOOK_COMMITS = ["648b35a"]   # /repo commits that add cfg(rpm_verif)-guarded hooks
-NOT_YET = {"C12": "check built (Lean FS model + chroot jail correspondence); temporarily unclaimed while the model is updated to the repaired extract() (fix 44c69bc)"}        # property id -> reason it is not claimed (MANIFEST.not_applicable)
+NOT_YET = {}        # property id -> reason it is not claimed (MANIFEST.not_applicable)
 
 PROPS = {}
 for m in pkgutil.iter_modules(propcfg.__path__):
